@@ -57,16 +57,23 @@ func valOf(e entJ) any {
 	panic("bad value kind " + e.T)
 }
 
+// symName replaces the symbols the specification uses for block names that need escapes in their literals (NameBytes of BclSem)
+var symName = strings.NewReplacer("Q", "q\"\\\t\u00e9", "H", "A")
+
 func toBlock(x blkJ) bcl.Block {
 	f := map[string]any{}
 	for _, e := range x.Ents {
+		k := e.K
 		if e.Kind == "blk" {
-			f[e.K] = toBlock(e.B[0])
+			if i := strings.IndexByte(k, '.'); i >= 0 {
+				k = k[:i+1] + symName.Replace(k[i+1:])
+			}
+			f[k] = toBlock(e.B[0])
 		} else {
-			f[e.K] = valOf(e)
+			f[k] = valOf(e)
 		}
 	}
-	return bcl.Block{Type: x.Type, Name: x.Name, Fields: f}
+	return bcl.Block{Type: x.Type, Name: symName.Replace(x.Name), Fields: f}
 }
 
 func toBlocks(xs []blkJ) []bcl.Block {
@@ -169,7 +176,7 @@ func judgeProg(c *progCase, o progObs) (why, shape, drift string) {
 				return "no error where a runtime error is required (" + c.Err + ")", "class:no-error", ""
 			case !rtErrRe.MatchString(o.Err):
 				return "not a runtime error: " + o.Err, "class:not-runtime", ""
-			case !strings.HasSuffix(o.Err, ": "+c.Err):
+			case !strings.HasSuffix(o.Err, ": "+c.Err) && !(strings.HasPrefix(c.Err, "child ") && strings.HasSuffix(o.Err, ": "+symName.Replace(c.Err))):
 				// the property pins the error class, not its wording
 				drift = fmt.Sprintf("runtime error text %q, specification %q", o.Err, c.Err)
 			}
